@@ -281,6 +281,16 @@ def main(argv=None):
     trusted = list(TRUSTED_COMMON) + list(getattr(mod, "TRUSTED", []))
     if lib_used:
         trusted.append("assumed library contracts (pyvc/lib*.py): " + ", ".join(lib_used))
+        try:        # what the differential validation of these contracts (tools/libcheck.py, not part of this check) last reported
+            with open(os.path.join(VERIF, "baseline", "libcheck.json")) as _f:
+                _lc = json.load(_f)
+            _s = _lc.get("summary", {})
+            trusted.append("the assumed library contracts are VALIDATED, not proved: tools/libcheck.py runs each of them in the engine's concrete mode and in the "
+                           f"real libraries ({', '.join(f'{k} {v}' for k, v in sorted((_lc.get('versions') or {}).items()))}) on {_s.get('snippets')} snippets over "
+                           f"{_s.get('functions')} library names ({_s.get('runs')} runs: {_s.get('agree')} agree, {_s.get('DISAGREE')} disagree, {_s.get('limitation')} declared "
+                           f"limitations, {_s.get('not-modelled')} not modelled; report baseline/libcheck.json, notes design_notes/LIBCHECK.md)")
+        except Exception:  # noqa  (the report is optional)
+            pass
     if summaries_used:
         trusted.append("callee contracts used at call sites (each proved by its own unit where listed under functions_under_contract): " + ", ".join(summaries_used))
     if inlined:
